@@ -1,29 +1,38 @@
 // Command cachetrim is the correspondence + oracle runner for C13 (cache Trim).
 //
 // It drives a real cache.Cache of the checked tree (imported through the module's replace
-// directive) on temporary directories: populations of entry files (created through the real
-// Put and by hand) and foreign files with mtimes set by os.Chtimes around every threshold,
-// every kind of trim.txt record, and histories of Get/GetFile/GetBytes/OutputFile/Put/Trim.
-// The cache's clock is the unexported field `now func() time.Time`; it is set through
+// directive) on a scratch directory: populations of entry files (created through the real
+// Put — also with EMPTY contents and with one output shared by several action ids — and by
+// hand) and foreign files, directories and symbolic links with mtimes set by os.Chtimes around
+// every threshold, every kind of trim.txt (missing, a directory, recent, old, future, corrupt,
+// huge), missing subdirectories, and histories of Get/GetFile/GetBytes/OutputFile/Put/Trim.
+//
+// Clock.  The cache's clock is the unexported field `now func() time.Time`; it is set through
 // reflect/unsafe on the real package (no copy of the source is made), so that boundary
-// instants are hit to the nanosecond.  If the field is gone or has another type the runner
-// falls back to the real clock with every age at least 5 s away from a threshold and says so
-// in the notes.
+// instants are hit to the nanosecond.  The epoch of every scenario is the REAL time at which
+// it starts (plus a chosen sub-second fraction): files that the code creates without calling
+// os.Chtimes (an empty output: copyFile returns right after os.OpenFile) carry the file
+// system's own clock, and with this epoch that clock and the injected one agree for the
+// events that happen at offset 0.  For such a file created by an event at another offset the
+// runner plays the file system's part and stamps it with the event's time.  If the clock
+// field is gone or has another type the runner falls back to the real clock with every age at
+// least 10 s away from a threshold and says so in the notes.
 //
 // Each scenario is (1) run through the extracted Coq model — the directory found after the
-// setup is handed to the model together with the events that took place, and the final
-// directories are compared — and (2) judged by oracles that do not use the model:
-// keep-recent, non-entry-untouched, no-modification, recent-trim-noop, stale-removed,
-// record-updated.
+// setup is handed to the model together with the events that took place; the final
+// directories and the error returns of every Trim are compared, and the model's executable
+// form of the history statement (c13_holds_on) is evaluated on it — and (2) judged by oracles
+// that do not use the model: keep-recent, non-entry-untouched, no-modification,
+// recent-trim-noop, stale-removed, record-updated.  Two further blocks use helper processes
+// (this binary re-executed): a Trim running concurrently with lookups from another process, and
+// a Trim that is killed half-way.
 package main
 
 import (
 	"bytes"
-	"crypto/sha256"
 	"encoding/hex"
 	"encoding/json"
 	"fmt"
-	"math/big"
 	"os"
 	"path/filepath"
 	"reflect"
@@ -46,233 +55,6 @@ const (
 	fiveDays = 5 * day
 	sec      = int64(time.Second)
 )
-
-// ---------------------------------------------------------------- scenarios
-
-// Obj is a hand-made object of the initial population.
-type Obj struct {
-	Sub  int    `json:"sub"`  // 0..255, or -1 for the cache root
-	Name string `json:"name"` // may contain any byte but '/' and NUL ("fuzz/x" allowed in the root)
-	Age  int64  `json:"age"`  // mtime = Now - Age
-	Kind string `json:"kind"` // F regular file, E empty directory, D non-empty directory, L dangling symlink
-	Data string `json:"data"`
-}
-
-// Entry is an entry of the initial population created through the real Put.
-type Entry struct {
-	ID   int   `json:"id"`
-	Data int   `json:"data"`
-	AgeA int64 `json:"age_a"` // age given to the index file afterwards
-	AgeD int64 `json:"age_d"` // age given to the data file afterwards
-}
-
-// Event is one operation of the history; At is relative to Now.
-type Event struct {
-	Op   string `json:"op"` // get getfile getbytes outputfile put trim
-	At   int64  `json:"at"`
-	ID   int    `json:"id"`
-	Data int    `json:"data"`
-}
-
-type Scenario struct {
-	Now     int64   `json:"now"`
-	Record  *string `json:"record"` // hex of trim.txt, nil = missing
-	Objs    []Obj   `json:"objs"`
-	Entries []Entry `json:"entries"`
-	Events  []Event `json:"events"`
-	Missing []int   `json:"missing_subdirs"` // subdirectories removed before the history (if empty)
-}
-
-func actionID(k int) cache.ActionID {
-	return cache.ActionID(sha256.Sum256([]byte(fmt.Sprintf("action-%d", k))))
-}
-func content(k int) []byte {
-	return []byte(fmt.Sprintf("content number %d of the C13 runner\n", k))
-}
-func outputID(k int) cache.OutputID { return cache.OutputID(sha256.Sum256(content(k))) }
-
-func subName(i int) string { return fmt.Sprintf("%02x", i) }
-func indexPath(k int) (int, string) {
-	id := actionID(k)
-	return int(id[0]), hex.EncodeToString(id[:]) + "-a"
-}
-func dataPathOf(out cache.OutputID) (int, string) {
-	return int(out[0]), hex.EncodeToString(out[:]) + "-d"
-}
-
-// ---------------------------------------------------------------- snapshots
-
-type SObj struct {
-	Name  string
-	Mtime int64
-	Tag   string // content hash prefix (files), summary of the contents (directories)
-	Kind  string
-}
-
-type Snap struct {
-	Record []byte // nil = missing
-	HasRec bool
-	Root   []SObj
-	Subs   [256][]SObj
-}
-
-func tagOf(b []byte) string {
-	h := sha256.Sum256(b)
-	return hex.EncodeToString(h[:6])
-}
-
-// describe returns the observable of one directory entry.
-func describe(path, name string) SObj {
-	li, err := os.Lstat(path)
-	if err != nil {
-		return SObj{Name: name, Kind: "?"}
-	}
-	switch {
-	case li.Mode()&os.ModeSymlink != 0:
-		if _, err := os.Stat(path); err != nil {
-			return SObj{Name: name, Kind: "L", Tag: "-"}
-		}
-		return SObj{Name: name, Kind: "S", Tag: "-"}
-	case li.IsDir():
-		ents, _ := os.ReadDir(path)
-		if len(ents) == 0 {
-			return SObj{Name: name, Kind: "E", Mtime: li.ModTime().UnixNano(), Tag: "-"}
-		}
-		var parts []string
-		for _, e := range ents {
-			s := describe(filepath.Join(path, e.Name()), e.Name())
-			parts = append(parts, fmt.Sprintf("%q/%d/%s/%s", s.Name, s.Mtime, s.Tag, s.Kind))
-		}
-		return SObj{Name: name, Kind: "D", Mtime: li.ModTime().UnixNano(), Tag: tagOf([]byte(strings.Join(parts, ";")))}
-	default:
-		b, _ := os.ReadFile(path)
-		return SObj{Name: name, Kind: "F", Mtime: li.ModTime().UnixNano(), Tag: tagOf(b)}
-	}
-}
-
-func listDir(dir string, skip func(string) bool) []SObj {
-	ents, err := os.ReadDir(dir)
-	if err != nil {
-		return nil
-	}
-	var out []SObj
-	for _, e := range ents {
-		if skip != nil && skip(e.Name()) {
-			continue
-		}
-		out = append(out, describe(filepath.Join(dir, e.Name()), e.Name()))
-	}
-	sort.Slice(out, func(i, j int) bool { return out[i].Name < out[j].Name })
-	return out
-}
-
-func isSubName(n string) bool {
-	if len(n) != 2 {
-		return false
-	}
-	_, err := strconv.ParseUint(n, 16, 8)
-	return err == nil && strings.ToLower(n) == n
-}
-
-// snapshot observes the cache directory; only the subdirectories in subs are listed (the
-// others are known to be empty: everything in the directory was put there by this runner).
-func snapshot(dir string, subs []int) *Snap {
-	s := &Snap{}
-	if b, err := os.ReadFile(filepath.Join(dir, "trim.txt")); err == nil {
-		s.Record, s.HasRec = b, true
-		if s.Record == nil {
-			s.Record = []byte{}
-		}
-	}
-	s.Root = listDir(dir, func(n string) bool { return n == "trim.txt" || isSubName(n) })
-	for _, i := range subs {
-		s.Subs[i] = listDir(filepath.Join(dir, subName(i)), nil)
-	}
-	return s
-}
-
-func showSObj(o SObj) string {
-	tag := o.Tag
-	if tag == "" {
-		tag = "-"
-	}
-	if tag != "-" {
-		tag = hex.EncodeToString([]byte(tag))
-	}
-	return fmt.Sprintf("%s %d %s %s", common.Hex([]byte(o.Name)), o.Mtime, tag, o.Kind)
-}
-
-func showRec(s *Snap) string {
-	if !s.HasRec {
-		return "none"
-	}
-	return common.Hex(s.Record)
-}
-
-// modelDir renders a snapshot in the line format of the model driver (and of its answer).
-func modelDir(s *Snap) string {
-	parts := []string{showRec(s), fmt.Sprint(len(s.Root))}
-	for _, o := range s.Root {
-		parts = append(parts, showSObj(o))
-	}
-	k := 0
-	for i := range s.Subs {
-		if len(s.Subs[i]) > 0 {
-			k++
-		}
-	}
-	parts = append(parts, fmt.Sprint(k))
-	for i := range s.Subs {
-		if len(s.Subs[i]) > 0 {
-			parts = append(parts, fmt.Sprint(i), fmt.Sprint(len(s.Subs[i])))
-			for _, o := range s.Subs[i] {
-				parts = append(parts, showSObj(o))
-			}
-		}
-	}
-	return strings.Join(parts, " ")
-}
-
-// canonModelAnswer sorts the objects of every subdirectory of a model answer by name, so that
-// it can be compared with a sorted snapshot.
-func canonModelAnswer(ans string) string {
-	f := strings.Fields(ans)
-	if len(f) < 3 || f[0] != "D" {
-		return ans
-	}
-	pos := 1
-	next := func() string {
-		if pos >= len(f) {
-			return ""
-		}
-		pos++
-		return f[pos-1]
-	}
-	readObjs := func(n int) []string {
-		var objs []string
-		for i := 0; i < n; i++ {
-			a, b, c, d := next(), next(), next(), next()
-			objs = append(objs, a+" "+b+" "+c+" "+d)
-		}
-		sort.Slice(objs, func(i, j int) bool {
-			return string(common.UnHex(strings.Fields(objs[i])[0])) < string(common.UnHex(strings.Fields(objs[j])[0]))
-		})
-		return objs
-	}
-	out := []string{"D", next()}
-	n, _ := strconv.Atoi(next())
-	out = append(out, fmt.Sprint(n))
-	out = append(out, readObjs(n)...)
-	k, _ := strconv.Atoi(next())
-	out = append(out, fmt.Sprint(k))
-	for i := 0; i < k; i++ {
-		idx := next()
-		cnt, _ := strconv.Atoi(next())
-		out = append(out, idx, fmt.Sprint(cnt))
-		out = append(out, readObjs(cnt)...)
-	}
-	return strings.Join(out, " ")
-}
 
 // ---------------------------------------------------------------- the clock
 
@@ -341,6 +123,18 @@ func probeFS(work string) int64 {
 	return 2000000000
 }
 
+// ---------------------------------------------------------------- reporting
+
+type runner struct {
+	f    *common.Flags
+	res  *common.Result
+	m    *common.Model
+	work string
+	n    int
+	dir  string       // one long-lived cache directory, emptied between scenarios
+	c    *cache.Cache // the real cache on it
+}
+
 var shrunkFor = map[string]int{}
 
 func (rn *runner) report(scn *Scenario, out *Outcome, source string) {
@@ -350,10 +144,17 @@ func (rn *runner) report(scn *Scenario, out *Outcome, source string) {
 		if shrunkFor[id]++; shrunkFor[id] > 1 {
 			continue
 		}
-		small, fs := rn.shrink(scn, f)
+		small, fs := scn, f
+		if scn != nil {
+			small, fs = rn.shrink(scn, f)
+		}
+		in := map[string]string{"source": source}
+		if small != nil {
+			in["scenario"] = scenarioJSON(small)
+			in["text"] = describeScenario(small)
+		}
 		rn.res.Violate(common.Violation{Kind: fs.Kind, Oracle: fs.Oracle, Key: fs.Key,
-			Input: map[string]string{"scenario": scenarioJSON(small), "text": describeScenario(small), "source": source},
-			Model: fs.Model, Impl: fs.Impl, Detail: fs.Detail})
+			Input: in, Model: fs.Model, Impl: fs.Impl, Detail: fs.Detail})
 	}
 }
 
@@ -453,6 +254,16 @@ func loadScenario(path string) (*Scenario, error) {
 	if err := json.Unmarshal(b, &s); err != nil {
 		return nil, err
 	}
+	// files written before the epoch became the real time carried an absolute "now"
+	var old struct {
+		Now *int64 `json:"now"`
+	}
+	if json.Unmarshal(b, &old) == nil && old.Now != nil && s.Frac == 0 {
+		s.Frac = ((*old.Now % 1e9) + 1e9) % 1e9
+	}
+	if s.Rec.Kind == "" {
+		s.Rec.Kind = "none"
+	}
 	return &s, nil
 }
 
@@ -468,29 +279,33 @@ func (rn *runner) recordSweep(r *common.RNG, n int) {
 	if err != nil {
 		return
 	}
-	var reqs []string
-	var impl []string
-	var descr []string
+	var reqs, impl, descr []string
 	for i := 0; i < n; i++ {
 		now := genNow(r)
-		rec := genRecord(r, now)
+		rec := genRecord(r)
+		if !injectable {
+			now = time.Now().UnixNano()
+		}
 		p := filepath.Join(dir, "trim.txt")
-		var raw []byte
-		if rec == nil {
-			os.Remove(p)
-		} else {
-			raw, _ = hex.DecodeString(*rec)
+		os.RemoveAll(p)
+		raw, kind := rec.render(now)
+		switch kind {
+		case "file":
 			os.WriteFile(p, raw, 0o666)
+		case "dir":
+			os.Mkdir(p, 0o777)
 		}
 		if injectable {
 			setNow(c, func() time.Time { return at(now) })
-		} else {
-			now = time.Now().UnixNano()
 		}
-		before := &Snap{Record: raw, HasRec: rec != nil}
+		before := &Snap{Record: raw, RecKind: kind}
 		terr := c.Trim()
-		got, rerr := os.ReadFile(p)
-		after := &Snap{Record: got, HasRec: rerr == nil}
+		after := &Snap{RecKind: "none"}
+		if fi, err := os.Lstat(p); err == nil && fi.IsDir() {
+			after.RecKind = "dir"
+		} else if got, err := os.ReadFile(p); err == nil {
+			after.Record, after.RecKind = got, "file"
+		}
 		out := &Outcome{}
 		slack := int64(0)
 		if !injectable {
@@ -500,13 +315,13 @@ func (rn *runner) recordSweep(r *common.RNG, n int) {
 		for _, t := range out.Tags {
 			rn.res.Count("sweep-" + t)
 		}
-		changed := after.HasRec && (!before.HasRec || !bytes.Equal(raw, got))
-		rn.res.Case(fmt.Sprintf("sweep %d %q", now, raw), true)
-		scn := &Scenario{Now: now, Record: rec, Events: []Event{{Op: "trim"}}}
+		changed := after.RecKind == "file" && (before.RecKind != "file" || !bytes.Equal(raw, after.Record))
+		rn.res.Case(fmt.Sprintf("sweep %d %s %q", now, kind, raw), true)
+		scn := &Scenario{Frac: now % 1e9, Rec: rec, Events: []Event{{Op: "trim"}}}
 		rn.report(scn, out, "record-sweep")
-		if injectable {
+		if injectable && kind != "dir" {
 			rq := "none"
-			if rec != nil {
+			if kind == "file" {
 				rq = common.Hex(raw)
 			}
 			reqs = append(reqs, fmt.Sprintf("due %d %s", now, rq))
@@ -539,7 +354,7 @@ func (rn *runner) parseSweep(r *common.RNG, n int) {
 		return
 	}
 	atoms := []string{"0", "1", "9", "12", "9223372036854775807", "9223372036854775808", "-", "+", " ", "\n", "\t", "\r", "\v", "\f",
-		" ", "　", "\u0085", " ", " ", " ", " ", " ", " ", "​", "\ufeff", "\xc2", "\xe2\x80", "\xe3\x80\x80",
+		" ", "　", "\u0085", " ", " ", " ", " ", " ", " ", "​", "\ufeff", "\xc2", "\xe2\x80", "\xe3\x80\x80",
 		"x", "_", ".", "e", "\x00", "\xff", "１", "00", "18446744073709551615", "1800000000", "\x1c", "\x1f", "\xa0", "\x85"}
 	var reqs, impl, inputs []string
 	for i := 0; i < n; i++ {
@@ -576,6 +391,10 @@ func (rn *runner) parseSweep(r *common.RNG, n int) {
 }
 
 func main() {
+	if h := os.Getenv("VERIF_C13_HELPER"); h != "" {
+		helperMain(h)
+		return
+	}
 	f := common.ParseFlags()
 	prop := os.Getenv("VERIF_PROP")
 	if prop == "" {
@@ -609,7 +428,7 @@ func main() {
 		res.Notes = append(res.Notes, fmt.Sprintf("the scratch file system stores mtimes with a granularity of %d ns; generated times are multiples of it", fsGran))
 	}
 	r := common.NewRNG(f.Seed)
-	agePool = ages(r)
+	agePool = ages()
 	if rn.m != nil {
 		// the model's constants against the numbers of the property text
 		c := strings.Fields(rn.m.Ask1("consts"))
@@ -636,6 +455,12 @@ func main() {
 			res.Rule = "replay of one recorded string"
 			res.Write(f.Out)
 			return
+		} else if err == nil && rp.Violation.Input["scenario"] == "" && strings.HasPrefix(rp.Violation.Input["source"], "process") {
+			// a finding of the two-process blocks: run them again
+			rn.processBlocks(r, 6, 10)
+			res.Rule = "replay of the two-process blocks"
+			res.Write(f.Out)
+			return
 		}
 		scn, err := loadScenario(f.Replay)
 		if err != nil {
@@ -660,42 +485,56 @@ func main() {
 			}
 		}
 	}
-	rn.one(restoreScenario(), "hand")
-	// 2. a small exhaustive block: one entry, every age of the pool, each record class, trim now
+	for _, s := range handScenarios() {
+		rn.one(s, "hand")
+	}
+	// 2. a small exhaustive block: one entry (with contents and empty), every age of the pool,
+	// each record class, trim now
 	for _, a := range agePool {
-		for _, rec := range []*string{nil, hexp("0"), hexp("x")} {
-			rn.one(&Scenario{Now: 1800000000*1e9 + 7, Record: rec, Entries: []Entry{{ID: 0, Data: 0, AgeA: a, AgeD: a}},
+		for di, rec := range []RecSpec{{Kind: "none"}, rawRec("0"), rawRec("x")} {
+			rn.one(&Scenario{Frac: 7, Rec: rec, Entries: []Entry{{ID: 0, Data: di % 2, AgeA: a, AgeD: a}},
 				Objs:   []Obj{{Sub: 3, Name: "x-a", Age: a, Kind: "F", Data: "h"}, {Sub: 3, Name: "README", Age: a, Kind: "F", Data: "h"}},
 				Events: []Event{{Op: "trim"}}}, "age-sweep")
 		}
 	}
-	// 3. lookup / store just before the trim, for every age of the pool
+	// 3. a lookup / store just before the trim, at every distance of the pool, for an entry with
+	// contents and for one with the empty output
 	for _, a := range agePool {
-		for _, op := range []string{"getbytes", "getfile", "get", "put", "outputfile"} {
+		for oi, op := range []string{"getbytes", "getfile", "get", "put", "outputfile"} {
 			if a < 0 {
 				continue
 			}
-			rn.one(&Scenario{Now: 1800000000*1e9 + 999999999, Entries: []Entry{{ID: 0, Data: 0, AgeA: 30 * day, AgeD: 30 * day}},
-				Events: []Event{{Op: op, At: -a, ID: 0, Data: 0}, {Op: "trim"}}}, "use-sweep")
+			d := (oi + int(a%2)) % 2
+			rn.one(&Scenario{Frac: 999999999, Entries: []Entry{{ID: 0, Data: d, AgeA: 30 * day, AgeD: 30 * day}},
+				Events: []Event{{Op: op, At: -a, ID: 0, Data: d}, {Op: "trim"}}}, "use-sweep")
 		}
 	}
 	// 3b. the one-hour allowance: a file whose mtime is up to an hour older than its last lookup
 	// (the lookup did not refresh it) must survive a trim five days after that lookup
 	for _, a := range []int64{fiveDays, fiveDays - sec, fiveDays - hour, 4 * day, fiveDays + 1} {
-		for _, d := range []int64{sec, 30 * 60 * sec, hour - sec, hour - 1, hour, hour + 1, 90 * 60 * sec, 2*hour - 1, 3 * hour} {
+		for di, d := range []int64{sec, 30 * 60 * sec, hour - sec, hour - 1, hour, hour + 1, 90 * 60 * sec, 2*hour - 1, 3 * hour} {
 			if !injectable && (d == hour-1 || d == hour+1 || d == hour-sec || a == fiveDays+1 || a == fiveDays-sec) {
 				continue
 			}
 			for _, op := range []string{"getbytes", "put"} {
-				rn.one(&Scenario{Now: 1800000000*1e9 + 500000000, Entries: []Entry{{ID: 0, Data: 0, AgeA: a + d, AgeD: a + d}},
-					Events: []Event{{Op: op, At: -a, ID: 0, Data: 0}, {Op: "trim"}}}, "allowance-sweep")
+				rn.one(&Scenario{Frac: 500000000, Entries: []Entry{{ID: 0, Data: di % 2, AgeA: a + d, AgeD: a + d}},
+					Events: []Event{{Op: op, At: -a, ID: 0, Data: di % 2}, {Op: "trim"}}}, "allowance-sweep")
+			}
+		}
+	}
+	// 3c. which files a lookup protects: only Get / only OutputFile / GetFile, then a trim
+	for _, a := range []int64{fiveDays, fiveDays - hour, day, sec, fiveDays + hour + 1} {
+		for _, op := range []string{"get", "outputfile", "getfile", "getbytes"} {
+			for d := 0; d < 2; d++ {
+				rn.one(&Scenario{Frac: 1, Entries: []Entry{{ID: 1, Data: d, AgeA: 20 * day, AgeD: 20 * day}},
+					Events: []Event{{Op: op, At: -a, ID: 1, Data: d}, {Op: "trim"}, {Op: "getbytes", At: sec, ID: 1, Data: d}}}, "api-sweep")
 			}
 		}
 	}
 	// 4. generated scenarios
-	nScn, nSweep, nParse := 700, 1500, 6000
+	nScn, nSweep, nParse, nStress, nKill := 700, 1500, 6000, 3, 6
 	if f.Tier == "thorough" {
-		nScn, nSweep, nParse = 20000, 40000, 200000
+		nScn, nSweep, nParse, nStress, nKill = 20000, 40000, 200000, 30, 60
 	}
 	for i := 0; i < nScn; i++ {
 		rn.one(genScenario(r), "generated")
@@ -703,14 +542,11 @@ func main() {
 	// 5. the due-test alone, and ParseInt/TrimSpace alone
 	rn.recordSweep(r, nSweep)
 	rn.parseSweep(r, nParse)
+	// 6. two processes: Trim concurrent with lookups; Trim killed half-way
+	rn.processBlocks(r, nStress, nKill)
 
-	res.Rule = fmt.Sprintf("corpus and the hand-written re-store history first; then one Put entry + hand-made files for every age of the pool (thresholds 1h, 1d, 5d, 5d+1h each -1h,-1s,-1ns,0,+1ns,+1s,+1h, plus fresh/old/future ages) x {no, old, corrupt} record; a lookup/store/OutputFile at every such distance before the trim; %d generated scenarios (0-4 Put entries, 0-8 hand-made files/directories/dangling links in subdirectories and the cache root, 12 classes of trim.txt contents, 0-5 Get/GetFile/GetBytes/OutputFile/Put/Trim events before the trim and 0-4 after it, missing subdirectories); %d clock/record pairs for the due-test alone; %d strings for ParseInt(TrimSpace(.)). A case is non-trivial when it contains a Trim call on a non-empty population (or is a due-test / a parsable string); distinct = distinct scenario. Clock injected through reflect on the real package: %v.", nScn, nSweep, nParse, injectable)
+	res.Rule = fmt.Sprintf("corpus and hand-written histories first (re-store of a stale output, also empty and shared; Put into a missing subdirectory; trim.txt a directory; symbolic links); then one Put entry (with contents / empty) + hand-made files for every age of the pool (thresholds 1h, 1d, 5d, 5d+1h each -1h,-1s,-1ns,0,+1ns,+1s,+1h, plus fresh/old/future ages) x {no, old, corrupt} record; a Get/GetFile/GetBytes/OutputFile/Put at every such distance before the trim; the one-hour allowance; which files each lookup protects; %d generated scenarios (0-4 Put entries over 4 contents one of which is empty, 0-8 hand-made files/directories/links in subdirectories and the cache root, 13 classes of trim.txt, 0-5 events before the trim and 0-4 after it, missing subdirectories); %d clock/record pairs for the due-test alone; %d strings for ParseInt(TrimSpace(.)); %d rounds of Trim concurrent with lookups in another process and %d rounds of a Trim killed half-way. A case is non-trivial when it contains a Trim call on a non-empty population (or is a due-test / a parsable string / a process round); distinct = distinct scenario. Clock injected through reflect on the real package: %v; epoch = real time.", nScn, nSweep, nParse, nStress, nKill, injectable)
 	res.Write(f.Out)
 }
 
-func hexp(s string) *string {
-	h := hex.EncodeToString([]byte(s))
-	return &h
-}
-
-var _ = big.NewInt
+func rawRec(s string) RecSpec { return RecSpec{Kind: "raw", Raw: hex.EncodeToString([]byte(s))} }
